@@ -6,6 +6,7 @@ the four entry points; oracle = vf.refsem (independent of pymbolic's mappers).
 """
 from __future__ import annotations
 
+import itertools
 from fractions import Fraction
 
 from vf import gen, refsem
@@ -331,6 +332,7 @@ class C02(Check):
             ("nest2", lambda: (("n2", s) for _, s in gen.nest2(EVAL_CTORS, EVAL_CTORS))),
             ("missing", self.gen_missing),
             ("shortcircuit", self.gen_shortcircuit),
+            ("error-order", self.gen_errororder),
             ("noncomm", self.gen_noncomm),
             ("typed-consts", self.gen_typed_consts),
             ("hash-twins", lambda: (("d2", s) for s in gen.twin_trees())),
@@ -392,6 +394,20 @@ class C02(Check):
                 yield ("sc", (tag, T(a, cnt, bm)))
                 yield ("sc", (tag, T(a, V("y"), bm)))
                 yield ("sc", (tag, T(("LogicalNot", a), bm)))
+
+    def gen_errororder(self):
+        """two operands that fail differently (division by zero, unknown variable, a raising call):
+        the error of the operand Python evaluates FIRST is the one that surfaces"""
+        bad = (("Quotient", C(1), C(0)), V("nope"), ("Call", V("boom"), T()),
+               ("Remainder", V("x"), C(0)))
+        for a, b in itertools.permutations(bad, 2):
+            for t in (("Comparison", a, S("<"), b), ("Sum", T(a, b)), ("Product", T(a, b)),
+                      ("Quotient", a, b), ("Power", a, b), ("FloorDiv", a, b),
+                      ("Call", V("f"), T(a, b)), ("Subscript", a, b), ("tuple", a, b),
+                      ("Min", T(a, b)), ("LeftShift", a, b), ("BitwiseOr", T(a, b)),
+                      ("CallWithKwargs", V("f"), T(), ("map", ("k", a), ("j", b))),
+                      ("If", a, b, C(1)), ("Sum", T(V("x"), a, b))):
+                yield ("sc", t)
 
     def gen_noncomm(self):
         lv = [V("x"), V("y"), V("z"), C(2)]
